@@ -468,7 +468,9 @@ def run_process_node(ctx, k_none):
     th = Thread(ctx, k_none)
     th.fn_called = False
     th.touched = []
-    vc = VC(ctx, loops={"successors": SuccLoop(th)})
+    vc = VC(ctx, loops={})
+    _succ_loop = SuccLoop(th)
+    vc.resolve_loop = lambda key, it: _succ_loop if isinstance(it, SuccIter) else None   # matched by what is iterated, wherever the loop lives
     env = {
         "__sh": Shared(th),
         "__vc": vc,
@@ -484,7 +486,7 @@ def run_process_node(ctx, k_none):
         "isinstance": isinstance,
     }
     get(REL, "coerce_node_error").compile_into(env)
-    pn = get(REL, "run_function_on_graph.<locals>.process_node", cut_loops={0: "successors"}).compile_into(env)
+    pn = get(REL, "run_function_on_graph.<locals>.process_node", cut_loops="auto").compile_into(env)
     raised = None
     try:
         r = pn(th.me_obj)
